@@ -5,7 +5,10 @@ CONSTANTS
     Band = 8
     Chunks = 256
     ASel = "all"
+    CoreDLt = TRUE
     Emit = FALSE
 INVARIANTS
     OffsetAgreesCore
+    AllLemmas
+    AddSubWrap
 CHECK_DEADLOCK FALSE
